@@ -155,3 +155,59 @@ def runspec(world, flags):
     if ex.aborted:
         ex.wrong = True
     return ex
+
+
+def hookspec(world, ex, flags):
+    """Expected fault-free hook log [(name, arg, owner_eid)] in strictly nested order, derived from
+    the shape index and the RunSpec result (which scenarios were executed, which step functions ran)."""
+    if flags.get("dry_run"):
+        return []
+    log = [("before_all", None, None)]
+    executed_steps = {}
+    for sid, src in ex.calls:
+        executed_steps.setdefault(sid, []).append(src)
+
+    def container_runs(c):
+        return any(s.eid in ex.executed for s in c.scenarios())
+
+    def reached(c):
+        return any(s.eid in ex.reached for s in c.scenarios())
+
+    def scen(sc):
+        if sc.eid not in ex.executed:
+            return
+        tags = sc.obj.tags if sc.obj is not None else sc.tags
+        own = list(sc.tags)
+        for t in own:
+            log.append(("before_tag", t, sc.eid))
+        log.append(("before_scenario", sc.eid, sc.eid))
+        for src in executed_steps.get(sc.eid, []):
+            log.append(("before_step", "%s/step:%s" % (sc.eid, src), sc.eid + "/" + src))
+            log.append(("after_step", "%s/step:%s" % (sc.eid, src), sc.eid + "/" + src))
+        log.append(("after_scenario", sc.eid, sc.eid))
+        for t in own:
+            log.append(("after_tag", t, sc.eid))
+
+    def container(c):
+        if not reached(c) or not container_runs(c):
+            return
+        kind = c.kind
+        for t in c.tags:
+            log.append(("before_tag", t, c.eid))
+        log.append(("before_" + kind, c.eid, c.eid))
+        for it in c.children:
+            if it.kind == "rule":
+                container(it)
+            elif it.kind == "outline":
+                for r in it.children:
+                    scen(r)
+            else:
+                scen(it)
+        log.append(("after_" + kind, c.eid, c.eid))
+        for t in c.tags:
+            log.append(("after_tag", t, c.eid))
+
+    for rd in world.rendered:
+        container(rd.features[0])
+    log.append(("after_all", None, None))
+    return log
